@@ -161,7 +161,8 @@ def v2(R, prog):
             cname = f.decls[f.j['params'][1]]['name']
             res = an.run(G, [an.LockTracker(), an.GuardTracker(lambda k: True)])
             K.check_at(R, P + '.K2', G, res, lambda ev: ev.kind == 'call' and ev.e.get('op') == '()' and (ev.recv_path() or '') == cname,
-                       require=lambda st, ev: an.has_lock(st, 'box.createlock') and 'G:r=F' in st,
+                       require=lambda st, ev, f=f: any(an.has_lock(st, bx + '.createlock') for bx in K.locals_assigned_from_call(f, r'::__find_or_create_box$')) and
+                       any(('G:%s=F' % r) in st for r in K.locals_assigned_from_call(f, r'::Box::reader$')),
                        key_fn=lambda ev: P + '.K2:ObjectCacheV2::borrow:construct-under-create-lock',
                        describe=lambda ev: 'the constructor runs only under the per-box create lock and only while no object exists', min_sites=1, what='ctor()')
         if f.nname.endswith('::__find_or_create_box'):
